@@ -1,7 +1,8 @@
 /-
 Specification side of C19: what a well-formed FASTA file *is*, independent of the code.
 
-A file is a list of records `(name, desc?, bases, width ≥ 1, eol ∈ {LF, CRLF}, finalNewline, blanksAfter)`.
+A file is a list of records `(name, desc?, bases, width ≥ 1, eol ∈ {LF, CRLF}, finalNewline, blanksAfter)`,
+optionally preceded by blank lines.
 Its bytes are obtained by cutting the bases into lines of `width` bases (the last one shorter or equal),
 terminating every line with the record's terminator (the very last line of the record only when
 `finalNewline`), and appending the blank (whitespace-only) lines that follow the record.
@@ -46,6 +47,8 @@ structure Rec where
   deriving Repr
 
 structure File where
+  /-- whitespace content of the blank lines before the first record; each is followed by LF -/
+  leadingBlanks : List Bytes := []
   recs : List Rec
   deriving Repr
 
@@ -75,7 +78,10 @@ def Rec.fileLines (r : Rec) : List Bytes :=
 
 def Rec.render (r : Rec) : Bytes := r.fileLines.flatten
 
-def File.render (f : File) : Bytes := (f.recs.map Rec.render).flatten
+/-- the bytes before the first record -/
+def File.leading (f : File) : Bytes := (blankLines f.leadingBlanks).flatten
+
+def File.render (f : File) : Bytes := f.leading ++ (f.recs.map Rec.render).flatten
 
 /-- An index entry, as the FAI format defines it. -/
 structure Entry where
@@ -103,7 +109,7 @@ def entriesFrom (pre : Nat) : List Rec → List Entry
   | [] => []
   | r :: rs => r.entry pre :: entriesFrom (pre + r.render.length) rs
 
-def File.entries (f : File) : List Entry := entriesFrom 0 f.recs
+def File.entries (f : File) : List Entry := entriesFrom f.leading.length f.recs
 
 /-! ### Well-formedness (explicit, decidable) -/
 
@@ -141,9 +147,11 @@ def namesDistinct : List Rec → Bool
   | [] => true
   | r :: rs => !(rs.any (·.name == r.name)) && namesDistinct rs
 
-/-- A well-formed FASTA file: at least one record, every record well formed, names pairwise distinct. -/
+/-- A well-formed FASTA file: at least one record, every record well formed, names pairwise distinct;
+blank lines before the first record contain white space only. -/
 def File.WF (f : File) : Prop :=
-  f.recs ≠ [] ∧ recsWf f.recs = true ∧ namesDistinct f.recs = true
+  f.recs ≠ [] ∧ recsWf f.recs = true ∧ namesDistinct f.recs = true ∧
+    f.leadingBlanks.all (·.all isBlankByte) = true
 
 instance (f : File) : Decidable f.WF := by unfold File.WF; infer_instance
 
